@@ -26,6 +26,8 @@
 #include <string>
 #include <vector>
 
+extern "C" void rd_ignore(int) __attribute__((weak));   // race detector (if linked): logging is not program behaviour
+
 namespace hr {
 
 struct KV {
@@ -77,6 +79,7 @@ struct Out {
     }
     // line(fmt...) writes {"x":"<id>",<fmt>}\n ; fmt must be the inner part of a JSON object
     void line(const char *fmt, ...) __attribute__((format(printf, 2, 3))) {
+        if (rd_ignore) rd_ignore(1);
         char tmp[8192];
         va_list ap;
         va_start(ap, fmt);
@@ -86,10 +89,13 @@ struct Out {
         buf += tmp;
         buf += "}\n";
         flush();  // line-wise: a crash must not lose what was observed before it
+        if (rd_ignore) rd_ignore(-1);
     }
     void raw(const std::string &inner) {
+        if (rd_ignore) rd_ignore(1);
         buf += "{\"x\":\"" + xid + "\"," + inner + "}\n";
         flush();  // line-wise: a crash must not lose what was observed before it
+        if (rd_ignore) rd_ignore(-1);
     }
 };
 
